@@ -34,7 +34,8 @@ RULE = ("exhaustive: every subset of failing (realization, unperturbed | perturb
         "perturbation_min_success in 1..P; for R,P <= 2 additionally times {no filter, sort-objective, cvar-objective} x "
         "{mean, stddev} x {NaN in the first objective, NaN in another objective/constraint column} (for the larger shapes "
         "these three choices rotate with the case index); plus sampled ensembles with R <= 8, P <= 6, 1..3 variables, "
-        "unset / too large thresholds, mixed estimator maps, random NaN columns and weights with zeros.  Every case also "
+        "unset / too large thresholds, mixed estimator maps, random NaN columns and weights with zeros, and a stream in which "
+        "every realization with positive configured weight fails (only a cvar filter then leaves weight in force).  Every case also "
         "runs an optimizer step (scripted optimizer, allow_nan on/off, joint or split function/gradient request) and an "
         "evaluator step.  Non-trivial = at least one failed evaluation; distinct = distinct canonical case.")
 ASSUMPTIONS = [
@@ -43,6 +44,7 @@ ASSUMPTIONS = [
     "the least-squares solver is a black box that is run on bit-identical systems in the full and in the reduced runs",
     "with a realization filter every function of the case is mapped to it; the reduced gradient run uses the reported weight row restricted to the survivors as configured weights (DESIGN C03 Reading)",
     "merge_realizations = False (the merged estimate is C02's known finding)",
+    "when all survivors have configured weight zero but a cvar filter gives them weight in force, the physically reduced function run is configured with uniform weights (an all-zero weight vector is rejected by the configuration; CVaR weights do not depend on the configured weights)",
 ]
 TRUSTED = [
     "NumPy/LAPACK float arithmetic is deterministic for identical inputs; values are compared with the tolerance of DESIGN 2.2 with S = largest input/gradient magnitude",
@@ -179,10 +181,31 @@ def gen_sampled(rng):
     }
 
 
+def gen_zero_weight_survivors(rng):
+    """every realization with positive configured weight fails: without a filter (and with a sort filter, whose
+    weights are the configured ones) nothing carries weight; a cvar filter still gives the survivors weight in force"""
+    case = gen_sampled(rng)
+    R, no = case["R"], case["no"]
+    if R == 1:
+        return case
+    pos = rng.sample(range(R), rng.randint(1, max(1, R // 2)))
+    case["w"] = [rng.randint(1, 16) / 16 if r in pos else 0.0 for r in range(R)]
+    case["filter"] = _filter(rng.choice(["cvar", "cvar", "sort", "none"]), R, rng.randrange(64))
+    table = [{"u": [list(e["u"][0]), list(e["u"][1])], "p": e["p"]} for e in case["table"]]
+    for r in pos:
+        table[r]["u"][0][rng.randrange(no)] = math.nan
+    case["table"] = table
+    case["stream"] = "zero-weight-survivors"
+    case["rmin"] = rng.choice([None, 0, 0, 1, 1, R - len(pos)])
+    return case
+
+
 def gen_cases(tier, rng):
     yield from _exhaustive(tier)
     for _ in range(500 if tier == "quick" else 12000):
         yield gen_sampled(rng)
+    for _ in range(60 if tier == "quick" else 1500):
+        yield gen_zero_weight_survivors(rng)
 
 
 # ---------------------------------------------------------------------------------------------------
@@ -371,7 +394,13 @@ def run_impl(case):
     failed_fn = [_has_nan(ent["u"]) for ent in table]
     keep = [r for r in range(R) if not failed_fn[r]]
     obs["red_f"] = None
-    if keep and sum(case["w"][r] for r in keep) > 0:
+    wkeep = [case["w"][r] for r in keep]
+    if keep and sum(wkeep) == 0 and case["filter"] is not None and case["filter"]["method"].startswith("cvar"):
+        # The weights in force are the CVaR filter's, which do not depend on the configured realization weights
+        # (every function of the case is mapped to the filter).  A configuration cannot hold the all-zero weight
+        # vector of the survivors, so the reduced ensemble is configured with uniform weights instead.
+        wkeep = [1.0] * len(keep)
+    if keep and sum(wkeep) > 0:
         filt = case["filter"]
         ok = True
         if filt is not None and "first" in filt["options"]:
@@ -382,7 +411,7 @@ def run_impl(case):
             filt = {"method": filt["method"], "options": o}
         if ok:
             try:
-                cfg = _config(case, w=[case["w"][r] for r in keep], samples=[case["samples"][r] for r in keep],
+                cfg = _config(case, w=wkeep, samples=[case["samples"][r] for r in keep],
                               rmin=0, pmin=1, filt=filt)
                 ee2 = EnsembleEvaluator(EnOptConfig.model_validate(cfg), None,
                                         _evaluator(case, keep, [pident[r] for r in keep]), pm)
@@ -655,21 +684,37 @@ def search(rng, case):
 
 
 MANIFEST = {
-    "level_text": ("Machine-checked Coq proofs about the executable model (Model/Ensemble.v): after NaN propagation a realization is "
-                   "flagged for functions iff some objective/constraint entry of its row is NaN and for gradients iff additionally "
-                   "fewer than perturbation_min_success perturbation rows are NaN-free; both thresholds are clamped to the ensemble "
-                   "size; functions/gradients are reported iff the number of non-failed realizations reaches realization_min_success "
-                   "and a missing value makes the step exit TOO_FEW_REALIZATIONS; every estimated function (mean and variance) and the "
-                   "combined mean / stddev gradient of the full ensemble equal those of the ensemble with the failed realizations and "
-                   "failed perturbation rows deleted and the weights renormalised, for any least-squares solver.  The model is tied to "
-                   "the code on every run by an in-Coq correspondence that is exhaustive over all failure subsets of small ensembles "
-                   "and in which the real code is also run on the physically reduced ensemble."),
-    "level_note": ("Partial/trusted: the least-squares solver is a parameter of the gradient theorems (the SVD solve is C02) and the "
-                   "correspondence compares the real solver's outputs on bit-identical systems; realization filters are inputs "
-                   "(observed from the real plug-in); that filter weights commute with the removal of failed realizations is checked "
-                   "on the real code (full vs. reduced run) but proved in C04/C05's model, not here; merged gradients are out of scope "
-                   "(C02 known finding); 0/0 cases (no surviving weight) compare flags, gates and exit codes only.  All theorems print "
-                   "'Closed under the global context'."),
-    "technique": "Coq proof (list induction over Q, solver as a section variable) + exhaustive in-Coq differential correspondence with the real EnsembleEvaluator, full vs. physically reduced ensembles",
+    "level_text": ("Machine-checked Coq proofs (Props/C03.v, all for arbitrary ensemble sizes and failure masks, by induction) about the "
+                   "executable definitions of Model/Ensemble.v that Chk_C03.check_case evaluates against the real code on every run.  "
+                   "C03_failed_iff_any_nan: after NaN propagation a realization is flagged for functions iff some objective or constraint "
+                   "entry of its row is NaN.  C03_perturbation_ok_iff / C03_grad_failed_iff: a perturbation succeeds iff its row is "
+                   "NaN-free, and a realization is flagged for gradients iff its unperturbed row has a NaN or fewer than "
+                   "perturbation_min_success perturbations are NaN-free.  C03_thresholds_clamped: both thresholds are clamped to the "
+                   "ensemble size.  C03_gate / C03_functions_reported_iff: values are reported iff the number of non-failed realizations "
+                   "reaches realization_min_success, otherwise nothing is reported.  C03_too_few_exit: the optimizer / evaluator step "
+                   "ends with TOO_FEW_REALIZATIONS exactly when the calculation aborted or a result lacks its values (or, with "
+                   "realization_min_success = 0 and no allow_nan, everything failed); the code differs from the *_STEP_FINISHED codes "
+                   "regenerated from the source.  C03_as_if_absent_estimate / C03_as_if_absent_functions: every estimated function "
+                   "(mean, variance, too-few abort and 0/0 alike) of the full ensemble equals that of the ensemble with the failed "
+                   "realizations deleted (weights in force restricted and renormalised; the reduced ensemble's own flags, recomputed "
+                   "by the model, are all false).  C03_perturbations_as_if_absent / C03_as_if_absent_gradients: the least-squares "
+                   "system of a realization is the system without its failed perturbations, and the combined mean / stddev gradient "
+                   "equals that of the ensemble with failed realizations and failed perturbations deleted, for every solver returning "
+                   "one entry per variable.  C03_filters_commute_with_removal: the CVaR and sort-window weights (models of C04/C05) of "
+                   "the survivors are the weights computed on the reduced ensemble, failed entries exact zeros.  C03_example: "
+                   "non-vacuity.  The correspondence is exhaustive over all failure subsets of small ensembles and also runs the real "
+                   "code on the physically reduced ensemble."),
+    "level_note": ("All 12 theorems print 'Closed under the global context'; none is partial.  Trusted / modelled-not-verified: the "
+                   "least-squares solver is a parameter of the gradient theorems (the SVD solve is C02) and the correspondence compares "
+                   "the real solver's outputs on bit-identical systems; in Model/Ensemble.v the realization filters are inputs (observed "
+                   "from the real plug-in) and C03_filters_commute_with_removal is about the filter models of Model/Filters.v, which "
+                   "C04/C05 tie to the code; when every realization with positive configured weight fails but a CVaR filter gives the "
+                   "survivors weight in force, the physically reduced ensemble is configured with uniform weights (a configuration "
+                   "cannot hold all-zero weights; CVaR weights do not depend on them); realization_system / realization_gradients / gradient_of (which rows enter "
+                   "the solve) are modelled but not evaluated by the checker, which evaluates normalize, zero_failed and "
+                   "combine_gradients on observed per-realization gradients and otherwise compares the real full run with the real "
+                   "reduced run; merged gradients are out of scope (C02 known finding); 0/0 cases (no surviving weight in force) compare flags, gates and exit codes only; that the model is the "
+                   "code is checked by the correspondence, not proved; float rounding is bridged by the tolerance of DESIGN 2.2."),
+    "technique": "Coq proof (list induction over Q with setoid rewriting under ==, solver as a universally quantified function) + exhaustive in-Coq differential correspondence with the real EnsembleEvaluator, full vs. physically reduced ensembles",
     "design_ref": "DESIGN.md section 4, C03",
 }
